@@ -145,6 +145,86 @@ def handleNz (args : List String) : String :=
       let some g := parseCArr? g | return "bad-op"
       if g.size ≠ din * dout * r then return "bad-op"
       return outMat din din (choiPT din dout r (mat g r))
+  | ["pdm", n, v] => Id.run do
+      let some n := n.toNat? | return "bad-op"
+      let some a := parseCArr? v | return "bad-op"
+      if a.size ≠ n then return "bad-op"
+      return outMat n n (pureDm (vec a))
+  | ["bip", dA, dB, k, q0, q1, c] => Id.run do
+      let some dA := dA.toNat? | return "bad-op"
+      let some dB := dB.toNat? | return "bad-op"
+      let some k := k.toNat? | return "bad-op"
+      let some q0 := parseCArr? q0 | return "bad-op"
+      let some q1 := parseCArr? q1 | return "bad-op"
+      let some c := parseCArr? c | return "bad-op"
+      if q0.size ≠ dA * k || q1.size ≠ dB * k || c.size ≠ k || dB = 0 then return "bad-op"
+      return outVec (dA * dB) (bipartiteOut dB k (mat q0 k) (mat q1 k) (vec c))
+  | ["sep", dA, dB, k, p, a, b] => Id.run do
+      let some dA := dA.toNat? | return "bad-op"
+      let some dB := dB.toNat? | return "bad-op"
+      let some k := k.toNat? | return "bad-op"
+      let some p := parseCArr? p | return "bad-op"
+      let some a := parseCArr? a | return "bad-op"
+      let some b := parseCArr? b | return "bad-op"
+      if p.size ≠ k || a.size ≠ k * dA * dA || b.size ≠ k * dB * dB || dB = 0 then return "bad-op"
+      return outMat (dA * dB) (dA * dB) (sepMix k dB (vec p) (ten a dA dA) (ten b dB dB))
+  | ["sepp", dA, dB, k, p, u, v] => Id.run do
+      let some dA := dA.toNat? | return "bad-op"
+      let some dB := dB.toNat? | return "bad-op"
+      let some k := k.toNat? | return "bad-op"
+      let some p := parseCArr? p | return "bad-op"
+      let some u := parseCArr? u | return "bad-op"
+      let some v := parseCArr? v | return "bad-op"
+      if p.size ≠ k || u.size ≠ k * dA || v.size ≠ k * dB || dB = 0 then return "bad-op"
+      return outMat (dA * dB) (dA * dB) (sepMixPure k dB (vec p) (mat u dA) (mat v dB))
+  | ["onb", no, d, nq, wi, u] => Id.run do
+      -- `u`: the captured `to_special_orthogonal_exp` output reshaped to (nq, no-1, d, d)
+      let some no := no.toNat? | return "bad-op"
+      let some d := d.toNat? | return "bad-op"
+      let some nq := nq.toNat? | return "bad-op"
+      let some u := parseCArr? u | return "bad-op"
+      if no = 0 || d = 0 || nq = 0 || u.size ≠ nq * (no - 1) * d * d || (wi ≠ "0" && wi ≠ "1") then return "bad-op"
+      let U : Nat → Nat → Nat → Nat → CFl := fun q o i j => u.getD (((q * (no - 1) + o) * d + i) * d + j) 0
+      let D := d ^ nq
+      let T := no * D + (if wi = "1" then 1 else 0)
+      return ",".intercalate ((List.range T).map fun t => outMat D D (onbFlat d nq (wi == "1") U t))
+  | ["hermsym", n, z] => Id.run do
+      let some n := n.toNat? | return "bad-op"
+      let some z := parseCArr? z | return "bad-op"
+      if z.size ≠ n * n then return "bad-op"
+      return outMat n n (hermSym (mat z n))
+  | ["chan", n, m, z] => Id.run do
+      let some n := n.toNat? | return "bad-op"
+      let some m := m.toNat? | return "bad-op"
+      let some z := parseCArr? z | return "bad-op"
+      if m = 0 || z.size ≠ (m - 1) * n * n then return "bad-op"
+      return ",".intercalate ((List.range m).map fun t => outMat n n (chanSpace (ten z n n) t))
+  | ["qcms", kind, d, rows, t] => Id.run do
+      -- `t`: `rows` leading rows of the captured special orthogonal matrix (each of the length the slot needs)
+      let some d := d.toNat? | return "bad-op"
+      let some rows := rows.toNat? | return "bad-op"
+      let some t := parseCArr? t | return "bad-op"
+      if d = 0 || rows = 0 || t.size % rows ≠ 0 then return "bad-op"
+      let w := t.size / rows
+      let N1 := d * (d - 1) / 2
+      let S := CFl.gmScalars d
+      let some (f : (Nat → CFl) → Gellmann.Mat d CFl) :=
+        (match kind with
+          | "sym" => if w = N1 + d - 1 then some (qcmsSym S d) else none
+          | "anti" => if w = N1 then some (qcmsAnti S d) else none
+          | "herm" => if w = d * d - 1 then some (qcmsHerm S d) else none
+          | _ => none) | return "bad-op"
+      return ",".intercalate ((List.range rows).map fun r =>
+        let M := f (fun p => t.getD (r * w + p) 0)
+        ",".intercalate ((List.finRange d).flatMap fun i => (List.finRange d).map fun j => cStr (M i j)))
+  | ["abk", dA, dB, k, g] => Id.run do
+      let some dA := dA.toNat? | return "bad-op"
+      let some dB := dB.toNat? | return "bad-op"
+      let some k := k.toNat? | return "bad-op"
+      let some g := parseCArr? g | return "bad-op"
+      let N := dA * dB ^ k
+      if k = 0 || dB = 0 || g.size ≠ N * N then return "bad-op"
+      return outMat N N (abkSym dA dB k (mat g N))
   | ["f2", nz, no, d] => Id.run do
       if (nz ≠ "0" && nz ≠ "1") || (no ≠ "0" && no ≠ "1") then return "bad-op"
       let some draws := (d.splitOn "|").mapM parseNatList? | return "bad-op"
